@@ -764,7 +764,10 @@ def execute(ctx, plan):
             return False
         # R3: clean-up that needs a few more loop iterations at the instant of the stop (cancelled futures run their
         # done-callbacks through call_soon) is tolerated: compare from the first later instant on
-        if now() <= last_life[0]:
+        # ("later" means later by more than rounding: an op placed on `deadline - 0.001` can land one ulp after the
+        # instant of the stop, in the middle of the loop iterations which that clean-up needs; the smallest step of the
+        # workload is 1 ms and the registries are looked at 1 ms after every stop anyway)
+        if now() <= last_life[0] + 1e-6:
             return False
         for n in TEST_MODES:
             if settled(n) != "stopped":
